@@ -37,6 +37,15 @@ def forced_entries(rng, n):
             good = "pub 5;w 7"
             bad = "pub 5;w 7;setw $0 6"
         out.append("forced 706c6f6e6b || %s || %s" % (good, bad))
+    # LONG copy class (one witness in 40 slots over all four columns of unconstrained rows): the instance feeds the slots
+    # after split position k from a second witness with another value; k = 16, 32 and random positions
+    def slots(pick):
+        rows = []
+        for r0 in range(0, 40, 4):
+            rows.append("gate 0 0 0 0 0 0 - %s" % " ".join(pick(j) for j in range(r0, r0 + 4)))
+        return "pub 3;w 5;w 6;" + ";".join(rows)
+    for k in [16, 32, 1 + rng.below(39), 1 + rng.below(39)]:
+        out.append("forced 706c6f6e6b || %s || %s" % (slots(lambda j: "$1"), slots(lambda j: "$1" if j < k else "$2")))
     return out
 
 
@@ -63,7 +72,7 @@ def run(ctx, broken):
     if st["forced_proofs"] == 0:
         ctx.violation("forced-prover-hook-missing", {"why": "the force-prove hook produced no proof: the C02 corpus is empty"}, no_input=True)
     st["rule"] = ("the honest proving algorithm forced past its unsatisfied-circuit check (hook verif::set_force_prove, remainder "
-                  "dropped) on instances violating an arithmetic row, a boolean, a range, a logic output, a copy constraint or a "
+                  "dropped) on instances violating an arithmetic row, a boolean, a range, a logic output, a copy constraint (also a long copy class split at positions 16, 32, random) or a "
                   "public input, and on rows whose identity components cancel pairwise (%d instances); forged commitments/evaluations (generator, identity, zero, one, other field), "
                   "field-wise splices of two valid proofs of one circuit, all-identity/all-zero proofs. The verifier must return "
                   "an error and agree with the Lean model verifier." % n)
